@@ -127,6 +127,25 @@ func (p *Pool) Items() []interface{} {
 	return append([]interface{}(nil), p.items...)
 }
 
+// Unregister forgets a pool that the library has dropped (a lazily created pool whose table entry was deleted for a cold
+// start): without it the registry - and every ResetAll - would grow with every execution.
+func Unregister(p *Pool) {
+	if p == nil || !p.reg {
+		return
+	}
+	regMu.Lock()
+	for i, q := range registry {
+		if q == p {
+			registry[i] = registry[len(registry)-1]
+			registry[len(registry)-1] = nil
+			registry = registry[:len(registry)-1]
+			break
+		}
+	}
+	regMu.Unlock()
+	p.reg = false
+}
+
 // ResetAll empties every pool that has ever been used.
 func ResetAll() {
 	regMu.Lock()
